@@ -5,7 +5,7 @@ from /repo's working tree, (3) correspondence model vs implementation on generat
 (4) the property's intrinsic oracles on the implementation.  Writes evidence/<id>.json."""
 import argparse, importlib, json, os, random, re, subprocess, sys, time, hashlib, traceback
 sys.path.insert(0, os.path.dirname(os.path.abspath(__file__)))
-import pe2
+import pe2, gen2
 from pe2 import Case, VERIF, COQ
 
 FORBIDDEN = re.compile(r'\b(Admitted|admit|Axiom|Axioms|Parameter|Parameters|Conjecture|Hypothesis|Variable[s]?\s+\w+\s*:.*\bProp\b)|Unset\s+Guard|bypass_check|-type-in-type|Admit Obligations')
@@ -181,6 +181,8 @@ def main():
         cases = [Case.from_json(cj)]
     else:
         cases = mod.generate(tier, rng)
+        import gen2
+        cases += gen2.extra(pid, tier, random.Random(seed * 7919 + 13))   # families shared between properties (own random stream)
         corpus_dir = os.path.join(VERIF, 'corpus', pid)
         if os.path.isdir(corpus_dir):
             pre = []
@@ -199,7 +201,11 @@ def main():
                  generators={}, modes={}, diag_kinds={})
     ios = pe2.run_impl_many(cases, exe)
     ios_asan = pe2.run_impl_many(cases, exe_asan, timeout=60) if exe_asan else [None] * len(cases)
-    mos = pe2.run_model(cases, mexe) if mexe and not getattr(mod, 'NO_MODEL', False) else [None] * len(cases)
+    mos = [None] * len(cases)
+    if mexe and not getattr(mod, 'NO_MODEL', False):
+        idx = [i for i, c in enumerate(cases) if not c.meta.get('no_model')]      # cases judged by their own oracle only are not run through the model
+        for i, mo in zip(idx, pe2.run_model([cases[i] for i in idx], mexe)):
+            mos[i] = mo
     relevant = getattr(mod, 'RELEVANT', ('stdout', 'exit', 'diagkinds', 'files'))
     samples = []
     nontrivial = set()
@@ -225,7 +231,7 @@ def main():
         # intrinsic oracle
         if hasattr(mod, 'intrinsic'):
             try:
-                why = mod.intrinsic(c, io, ia)
+                why = mod.intrinsic(c, io, ia) or gen2.intrinsic(c, io)
             except Exception as e:
                 why = 'intrinsic oracle raised %r' % (e,)
             if why:
